@@ -151,6 +151,29 @@ def c14_bounds(ctx, prog):
                {"accesses": sorted({(site_of(e[1], e[2]), show(e[3][0])[:40], e[3][1]) for e in oob})[:4]}, nontrivial=True)
 
 
+def c14_tables(ctx, prog):
+    """L5t: counted tables (the caller's source array, the pipe table, the pollfd array, descriptor sets, small local arrays) are
+    never indexed at or beyond their element count, for every count - linear bounds, see sa/tablebounds.py"""
+    from . import tablebounds as TB
+    helpers = TB.find_index_helpers(prog)
+    total = 0
+    for F in prog.funcs_all:
+        if not F.file.startswith(prog.root) or "/test/" in F.file or "/examples/" in F.file:
+            continue
+
+        def report(kind, node, table, ok, det, F=F):
+            if ok is None:
+                raise AnalysisBroken("C14.L5t: %s: %s" % (site_of(F, node), det.get("why")))
+            if kind == "subscript":
+                ctx.ob("C14.L5t", "%s:%d %s" % (F.name, node["l"][0], expr_str(node)[:50]), "the largest value the index can take is below the "
+                       "number of elements of `%s`, whatever the element count is" % table, ok, det, nontrivial=True)
+            else:
+                ctx.ob("C14.L5t", "%s:%d %s" % (F.name, node["l"][0], expr_str(node)[:50]), "the count handed on with `%s` does not exceed its "
+                       "number of elements" % table, ok, det, nontrivial=True)
+        total += TB.check_function(prog, F, helpers, report)
+    ctx.floor("C14.L5t", 60)
+
+
 def c14_streams(ctx, prog):
     EPIPE = prog.const("REPROC_EPIPE")
     inv = fs(prog.const("PIPE_INVALID"))
